@@ -128,6 +128,11 @@ def tdftype_primitives(prog: Program, rep, rule="primitive-codec"):
         if not (isinstance(leaf, ast.Call) and isinstance(leaf.func, ast.Attribute) and leaf.func.attr == "tobytes" and not leaf.args):
             problems.append(f"`{norm(leaf) if leaf is not None else None}` is not <array>.tobytes()")
             continue
+        # the reader interprets the bytes row-major (np.frombuffer): tobytes() must dump in C order whatever the memory layout
+        bad_kw = [k for k in leaf.keywords if not (k.arg == "order" and isinstance(k.value, ast.Constant) and k.value.value == "C")]
+        if bad_kw:
+            problems.append(f"`{norm(leaf)}` does not dump the items in C (row-major) order: a column-major array is written transposed")
+            continue
         x = leaf.func.value
         is_arr = None
         for t, pol in guards:
@@ -331,6 +336,31 @@ def date_codec(prog: Program, rep, rule="date-codec"):
             rep.fail(rule, MOD, f"BTSDate.{mname}", f.node, f"{mname} no longer goes through {inner}", construct=f"BTSDate.{mname}")
         else:
             rep.ok(rule, f"BTSDate.{mname} evaluates the same expression as {inner}")
+    # the conversion pair: the stored word is int(<datetime>.timestamp()) and is read back with datetime.fromtimestamp(<word>) -
+    # both in the process's local time, so they are inverse for the naive datetimes the library uses; an epoch-plus-timedelta or a
+    # UTC conversion on one side only shifts every date by the zone offset
+    rl = return_leaves(prog.need_method(dt, "read").node)
+    wl = return_leaves(prog.need_method(dt, "write").node)
+
+    def is_from_ts(v):
+        return isinstance(v, ast.Call) and norm(v.func) in ("datetime.fromtimestamp", "datetime.datetime.fromtimestamp") and len(v.args) == 1 and not v.keywords \
+            and any(isinstance(x, ast.Call) and norm(x.func) in ("struct.unpack", "struct.unpack_from") for x in ast.walk(v.args[0]))
+
+    def is_to_ts(v):
+        if not (isinstance(v, ast.Call) and norm(v.func) == "struct.pack" and len(v.args) == 2):
+            return False
+        a = v.args[1]
+        return isinstance(a, ast.Call) and norm(a.func) == "int" and len(a.args) == 1 and isinstance(a.args[0], ast.Call) and isinstance(a.args[0].func, ast.Attribute) \
+            and a.args[0].func.attr == "timestamp" and not a.args[0].args and isinstance(a.args[0].func.value, ast.Name)
+
+    if rl and all(v is not None and is_from_ts(v) for _, v, _ in rl) and wl and all(v is not None and is_to_ts(v) for _, v, _ in wl):
+        rep.ok(rule, "BTSDate: stored word = int(d.timestamp()), read back with datetime.fromtimestamp(word) (inverse pair, local time on both sides)", nontrivial=True)
+    else:
+        badr = next((v for _, v, _ in rl if v is None or not is_from_ts(v)), None)
+        f_ = prog.need_method(dt, "read" if badr is not None or not rl else "write")
+        rep.fail(rule, MOD, f"BTSDate.{f_.name}", f_.node, "the date conversion is no longer the pair int(d.timestamp()) / datetime.fromtimestamp(word): "
+                 f"read returns `{norm(rl[0][1]) if rl and rl[0][1] is not None else None}`, write `{norm(wl[0][1]) if wl and wl[0][1] is not None else None}` - dates shift by the zone offset or lose range",
+                 construct="BTSDate conversion pair")
     br = prog.need_method(dt, "bread")
     rd = [c for c in walk_no_nested(br.node) if isinstance(c, ast.Call) and isinstance(c.func, ast.Attribute) and c.func.attr == "read" and norm(c.func.value) == br.params[0]]
     if rd and norm(rd[0].args[0]) == "4":
